@@ -20,7 +20,7 @@ import (
 func init() {
 	core.Register(&core.Simple{
 		Id: "C14", Lvl: "exploration", Quick: 24, Thorough: 600, PerBatch: 6, Width: 3, Race: true, Timeout: 1500,
-		RuleText: "each case runs the real processOutbox and connection loops in a race-detector build with 4-24 clients, each driven by 2-4 concurrent sender goroutines issuing 40-120 requests with large replies (message board of 20-60 KiB, file lists of 100-600 entries, user lists, news lists, file info) mixed with broadcast traffic (public chat, user-info changes, board posts); in every second run 1-3 further clients vanish mid-frame (their writes are cut short and then fail) while requesting large replies; the client side of every connection records each Write call as one atomic chunk (TCP semantics) and yields or sleeps at random before recording, so writes of different transactions to one client can overlap; at hook-based quiescence the reference decoder re-frames every client's byte stream, a ledger checks that every reply carries the id of an unanswered request sent on that connection, and every always-answered request has exactly one reply. distinct = (clients, senders, board size class, observed multi-chunk frames > 0); non-trivial = run delivered at least one frame larger than the 32 KiB copy buffer",
+		RuleText: "each case runs the real processOutbox and connection loops in a race-detector build with 4-24 clients (every third one sends handshake, login and its first four requests in a single write), each driven by 2-4 concurrent sender goroutines issuing 40-120 requests with large replies (message board of 20-60 KiB, file lists of 100-600 entries, user lists, news lists, file info) mixed with broadcast traffic (public chat, user-info changes, board posts); in every second run 1-3 further clients vanish mid-frame (their writes are cut short and then fail) while requesting large replies; the client side of every connection records each Write call as one atomic chunk (TCP semantics) and yields or sleeps at random before recording, so writes of different transactions to one client can overlap; at hook-based quiescence the reference decoder re-frames every client's byte stream, a ledger checks that every reply carries the id of an unanswered request sent on that connection, and every always-answered request has exactly one reply. distinct = (clients, senders, board size class, observed multi-chunk frames > 0); non-trivial = run delivered at least one frame larger than the 32 KiB copy buffer",
 		Case:     runCase,
 	})
 }
@@ -62,7 +62,26 @@ func runCase(c *core.Case) {
 	}
 	defer srv.Close()
 	var clients []*refclient.Client
+	pipelined := map[int]map[uint32]int{} // requests sent in the same segment as handshake and login
 	for i := 0; i < nClients; i++ {
+		if i%3 == 2 {
+			// this client does not wait for the login reply: handshake, login and its first requests leave in one write
+			cl := refclient.Connect(srv, fmt.Sprintf("10.14.0.%d:1", i+1))
+			buf := rc.Handshake()
+			login := rc.Tran{Type: 107, ID: cl.NewID(), Fields: []rc.Field{rc.F(105, rc.Obfuscate([]byte("admin"))), rc.F(106, nil), rc.FS(102, fmt.Sprintf("C%d", i)), rc.F(104, rc.U16(1)), rc.F(160, rc.U16(190))}}
+			buf = append(buf, login.Encode()...)
+			pipelined[i] = map[uint32]int{}
+			for _, typ := range []int{500, 300, 101, 500} {
+				t := rc.Tran{Type: uint16(typ), ID: cl.NewID()}
+				pipelined[i][t.ID] = typ
+				buf = append(buf, t.Encode()...)
+			}
+			cl.SendRaw(buf)
+			cl.SkipHandshakeReply()
+			clients = append(clients, cl)
+			c.Count("clients_pipelining_behind_the_login", 1)
+			continue
+		}
 		cl, err := refclient.LoginAs(srv, fmt.Sprintf("10.14.0.%d:1", i+1), "admin", "", fmt.Sprintf("C%d", i))
 		if err != nil {
 			c.Unsure("login: %v", err)
@@ -112,6 +131,9 @@ func runCase(c *core.Case) {
 	var lmu sync.Mutex
 	for i := range ledgers {
 		ledgers[i] = map[uint32]sent{}
+		for id, typ := range pipelined[i] {
+			ledgers[i][id] = sent{typ}
+		}
 	}
 	var posts atomic.Int64
 	var wg sync.WaitGroup
